@@ -206,6 +206,58 @@ def c06b(chk):
             want = ["estimate_unchecked", "weight"] if nm == "FuLi" else ["weight"]
             chk.ob("C06.b", "theta::%s/overrides" % nm, names == want, "%s:%d" % (imp["span"]["file"], imp["span"]["line"]),
                    "estimator %s must define %s (found %s)" % (nm, want, names), nontrivial=False)
+    theta_default_estimator(chk)
+
+
+def theta_default_estimator(chk):
+    """theta = sum over the interior classes i of weight(i, n) * value_i with n = elements() - 1: the class index handed to weight() is
+    the position of the value it multiplies, whatever pairs them up (enumerate, a zipped range)"""
+    import iters as IT
+    prog = chk.prog
+    f = chk.fn(STAT + "theta::private::Estimator::estimate_unchecked")
+    if f is None:
+        return
+    unit = [f] + prog.closures_of(f.path)
+    ws = [(g, b, t) for g in unit for b, t in g.calls() if callee_name(t["callee"]).endswith("Estimator::weight") or (t["callee"].get("path") or "").endswith("Estimator::weight")]
+    if not ws:
+        # the weight function handed over as a value and called through Fn::call (after a helper was inlined)
+        ws = [(g, b, t) for g in unit for b, t in g.calls() if (t["callee"].get("path") or "").startswith("core::ops::function::Fn") and len(t["args"]) == 2]
+    ok = False
+    why = "expected exactly one weight(i, n) call inside the iteration over the values (found %d)" % len(ws)
+    if len(ws) == 1:
+        g, wb, wt = ws[0]
+        its = [it for it in IT.iterations(prog, f) if it.body is g and wb in it.blocks]
+        it = min(its, key=lambda x: len(x.blocks)) if its else None
+        args = wt["args"]
+        if len(args) == 2 and (wt["callee"].get("path") or "").startswith("core::ops::function::Fn"):
+            # Fn::call(&weight, (i, n)): the tuple's parts
+            tl = op_local(args[1])
+            td = g.single_def(g.copy_root(tl)) if tl is not None else None
+            args = td[3]["ops"] if td and td[0] == "assign" and td[3]["k"] == "aggregate" and td[3].get("akind") == "tuple" else []
+        if it is not None and len(args) == 2:
+            chk.fns_analysed.add(g.path)
+            w = IT.value_window(f, it.chain(), lambda pl, names: bool([e for e in pl[1] if e[0] == "field" and e[2] in ("array", "data")]) or ("Spectrum<" in f.local_ty(pl[0]) and ("inner" in names or "as_slice" in names)))
+            ipath = it.elem_path(args[0])
+            # n: elements() - 1, computed outside the body
+            o = it.outer_root(args[1])
+            nform = an.affine_form_opaque(it.parent, o) if o is not None else None
+            n_ok = nform is not None and nform[0] == 1 and nform[1] == -1 and nform[2] is not None and "elements" in nform[2]
+            # the product weight * value is what is summed
+            res = an.call_dest_local(wt)
+            prod = False
+            vpath = None
+            for _, _, p_, rv, _ in g.assigns():
+                if rv["k"] == "binop" and rv["op"] == "Mul":
+                    ls = [op_local(rv["l"]), op_local(rv["r"])]
+                    if any(l_ is not None and g.copy_root(l_) == res for l_ in ls):
+                        other = rv["r"] if (ls[0] is not None and g.copy_root(ls[0]) == res) else rv["l"]
+                        vpath = it.elem_path(other)
+                        prod = (p_[0] == 0 or it.kind == "loop")
+            aligned = w is not None and w["index_path"] is not None and ipath == w["index_path"] and vpath == w["value_path"] and w["index_first"] == w["first"]
+            ok = aligned and n_ok and prod
+            why = "weight's class index is element part %s, the value multiplied is part %s; the chain pairs index part %s (starting at %s) with value part %s (starting at position %s); n = elements() - 1: %s; weight * value is the term: %s" % (
+                ipath, vpath, w and w["index_path"], w and w["index_first"], w and w["value_path"], w and w["first"], n_ok, prod)
+    chk.ob("C06.b", "theta::Estimator::estimate_unchecked=sum(weight(i,n)*v_i)", ok, f.loc(), why)
 
 
 def c06c(chk):
@@ -619,7 +671,41 @@ def interior_only(chk, f, rule, key, n_minus=1):
         order = any(x[0] == takes[0][0] for x in info2["calls"])
         ok = s1 and from_elems and len(subs) >= 1 and all(c == 1 for _, c in subs) and order
         why = "skip(1)=%s, take(elements()-1)=%s/%s, take-before-skip=%s" % (s1, from_elems, subs, order)
+    if not ok:
+        # read the window of positions off the adaptor chain instead (whatever combination of take / skip / zip with 0..n / [1..n] spells it)
+        w = _interior_window(chk, f)
+        if w is not None:
+            ok = w["first"] == 1 and w["count"] == (1, -2) and True
+            why = "positions %d .. %d + %s*E%+d - 1 of the E entries are visited (all zipped sides of known length: %s)" % (w["first"], w["first"], w["count"][0] if w["count"] else "?", w["count"][1] if w["count"] else 0, w["exact"])
     chk.ob(rule, key, ok, f.loc(), "interior classes only (the two monomorphic entries are excluded): " + why)
+
+
+def _interior_window(chk, f):
+    """the window of the longest iterator chain in f (or one of its closures' parents) whose source is the spectrum's values"""
+    import iters as IT
+    def is_values(pl, names):
+        fl = [e[2] for e in pl[1] if e[0] == "field"]
+        if fl and fl[-1] in ("array", "data"):
+            return True
+        ty = f.local_ty(pl[0])
+        if "Spectrum<" in ty and not fl and ("inner" in names or "as_slice" in names):
+            return True
+        return ("[f64]" in ty or "Vec<f64>" in ty or "Array<f64>" in ty) and not fl
+    best = None
+    for b, t in f.calls():
+        if not t["args"] or op_local(t["args"][0]) is None:
+            continue
+        if not (t["callee"].get("path") or "").startswith("core::iter::traits::"):
+            continue
+        ch = IT.receiver_chain(f, t["args"][0])
+        if len(ch) < 2:
+            continue
+        w = IT.value_window(f, ch, is_values)
+        if w is None:
+            continue
+        if best is None or len(ch) > best[0]:
+            best = (len(ch), w)
+    return best[1] if best else None
 
 
 def c14d(chk):
